@@ -50,12 +50,15 @@ var jobTable = map[string]jobSet{
 			{Scenario: "uni/N=1/k=5", Budgets: bs(B(1, 1), B(0, 2)), Split: 1},
 			{Scenario: "uni/N=2/k=7", Budgets: bs(B(1, 1), B(0, 2)), Split: 1},
 			{Scenario: "bidi/N=2/k1=3/k2=3", Budgets: bs(B(1, 0), B(0, 2)), Split: 1},
+			{Scenario: "burst2/N=2/k=2", Budgets: bs(B(0, 2)), Split: 1},
 		},
 		thorough: []Job{
 			{Scenario: "uni/N=1/k=5", Budgets: bs(B(2, 1), B(1, 2), B(0, 3)), Split: 2},
 			{Scenario: "uni/N=2/k=7", Budgets: bs(B(2, 1), B(1, 2), B(0, 3)), Split: 2},
 			{Scenario: "uni/N=3/k=5", Budgets: bs(B(1, 1), B(0, 3)), Split: 2},
 			{Scenario: "bidi/N=2/k1=3/k2=3", Budgets: bs(B(1, 1), B(0, 3)), Split: 2},
+			{Scenario: "burst2/N=2/k=2", Budgets: bs(B(1, 1), B(0, 3)), Split: 2},
+			{Scenario: "burst2/N=1/k=2", Budgets: bs(B(0, 2)), Split: 1},
 		},
 		quickS: 240, thoroughS: 1500,
 	},
